@@ -111,7 +111,7 @@ def _random_trace(arg):
     return {"inst": hdr, "evs": evs, "error_in_code": err}
 
 
-class _Timeout(Exception):
+class _Timeout(BaseException):
     pass
 
 
@@ -128,7 +128,7 @@ def _natural_trace(arg):
     np.random.seed(sd)
     random.seed(sd)
     signal.signal(signal.SIGALRM, _alarm)
-    signal.alarm(120)
+    signal.setitimer(signal.ITIMER_REAL, 120, 5)
     try:
         with tempfile.TemporaryDirectory(prefix="verif_c17_", dir="/var/tmp") as wd:
             with w.recording() as rec:
@@ -143,7 +143,7 @@ def _natural_trace(arg):
     except _Timeout:
         return {"noverdict": "timeout"}
     finally:
-        signal.alarm(0)
+        signal.setitimer(signal.ITIMER_REAL, 0)
 
 
 def validate(ck, traces, name, expect_reject=False):
